@@ -1156,6 +1156,72 @@ func (s *sim) checkAccessors(box *stateBox, where string) {
 			}, want2})
 		}
 	}
+	// AddValidator: one more validator with exactly the given data, one more balance and (altair+) one
+	// more zero entry in EACH participation list and in the inactivity scores; nothing else
+	if c, err := st.CopyState(); err == nil {
+		var pk common.BLSPubkey
+		copy(pk[:], s.w.keys.pub[(s.w.cfg.Validators+22)%len(s.w.keys.pub)][:])
+		wc := fnvRoot("addval-wc", 1)
+		bal := s.w.spec.MAX_EFFECTIVE_BALANCE + 3*s.w.spec.EFFECTIVE_BALANCE_INCREMENT/2
+		var aerr error
+		if p := guard(func() { aerr = c.AddValidator(s.w.spec, pk, wc, bal) }); p != nil {
+			s.viol("C15", "setter-panic/AddValidator/"+p.frame, p.val)
+			return
+		}
+		if aerr == nil {
+			s.res.Stat("setter_checks", 1)
+			after := s.rawOf(c)
+			wantLists := map[string]bool{"Validators": true, "Balances": true}
+			if forkIndexOfState(st) >= 1 {
+				wantLists["PreviousEpochParticipation"], wantLists["CurrentEpochParticipation"], wantLists["InactivityScores"] = true, true, true
+			}
+			ch := changedFields(raw, after)
+			okSet := len(ch) == len(wantLists)
+			for _, f := range ch {
+				okSet = okSet && wantLists[f]
+			}
+			if !okSet {
+				s.viol("C15", "setter/AddValidator/fields", fmt.Sprintf("%s (%s): AddValidator changed %v", where, forkName(st), ch))
+				return
+			}
+			for f := range wantLists {
+				lb, la := reflect.ValueOf(fieldOf(raw, f)), reflect.ValueOf(fieldOf(after, f))
+				if la.Len() != lb.Len()+1 {
+					s.viol("C15", "setter/AddValidator/"+f, fmt.Sprintf("%s (%s): AddValidator: %s has %d entries, had %d", where, forkName(st), f, la.Len(), lb.Len()))
+					return
+				}
+				for i := 0; i < lb.Len(); i++ {
+					if !reflect.DeepEqual(lb.Index(i).Interface(), la.Index(i).Interface()) {
+						s.viol("C15", "setter/AddValidator/"+f, fmt.Sprintf("%s (%s): AddValidator changed entry %d of %s", where, forkName(st), i, f))
+						return
+					}
+				}
+				last := la.Index(la.Len() - 1).Interface()
+				switch f {
+				case "Validators":
+					v := last.(*phase0.Validator)
+					eff := bal - bal%s.w.spec.EFFECTIVE_BALANCE_INCREMENT
+					if eff > s.w.spec.MAX_EFFECTIVE_BALANCE {
+						eff = s.w.spec.MAX_EFFECTIVE_BALANCE
+					}
+					if v.Pubkey != pk || v.WithdrawalCredentials != wc || v.EffectiveBalance != eff || v.Slashed || uint64(v.ActivationEligibilityEpoch) != farFuture || uint64(v.ActivationEpoch) != farFuture || uint64(v.ExitEpoch) != farFuture || uint64(v.WithdrawableEpoch) != farFuture {
+						s.viol("C15", "setter/AddValidator/Validators", fmt.Sprintf("%s (%s): the validator added is %+v", where, forkName(st), *v))
+						return
+					}
+				case "Balances":
+					if last.(common.Gwei) != bal {
+						s.viol("C15", "setter/AddValidator/Balances", fmt.Sprintf("%s (%s): balance added %v, given %d", where, forkName(st), last, bal))
+						return
+					}
+				default:
+					if !reflect.ValueOf(last).IsZero() {
+						s.viol("C15", "setter/AddValidator/"+f, fmt.Sprintf("%s (%s): the new entry of %s is %v, not zero", where, forkName(st), f, last))
+						return
+					}
+				}
+			}
+		}
+	}
 	hFn := tree.GetHashFn()
 	for _, set := range vs {
 		c, err := st.CopyState()
